@@ -381,3 +381,41 @@ def template_program(body, after, prelude=True, before=()):
     lines.append(body)
     lines += list(after)
     return program_for(lines, start=10, step=10)
+
+
+def crunch(text):
+    """The same program with every optional blank removed (blanks inside string literals, and everything from REM / ' / DATA
+    to the end of the statement, are content and kept).  Color BASIC tokenises keywords wherever they occur, so the crunched
+    spelling is the same program."""
+    out = []
+    for line in text.split("\n"):
+        m = re.match(r"(\s*\d+)\s*(.*)$", line)
+        if not m:
+            out.append(line)
+            continue
+        num, body = m.groups()
+        res = []
+        i = 0
+        n = len(body)
+        while i < n:
+            ch = body[i]
+            if ch == '"':
+                j = body.find('"', i + 1)
+                j = n - 1 if j < 0 else j
+                res.append(body[i : j + 1])
+                i = j + 1
+                continue
+            if body.startswith("REM", i) or ch == "'":
+                res.append(body[i:])
+                break
+            if body.startswith("DATA", i):
+                j = body.find(":", i)
+                j = n if j < 0 else j
+                res.append(body[i:j])
+                i = j
+                continue
+            if ch != " ":
+                res.append(ch)
+            i += 1
+        out.append(num + " " + "".join(res))
+    return "\n".join(out)
